@@ -430,6 +430,9 @@ class DecimalFieldFormat(AbstractFieldFormat):
                 translated_value += character_to_process
 
         try:
+            if "_" in translated_value:
+                # Python source code can use underscores to group digits, numbers in data can not.
+                raise ValueError("underscore in number")
             result = decimal.Decimal(translated_value)
         except Exception as error:
             # TODO: limit exception handler to decimal exception or whatever decimal.Decimal raises.
@@ -537,6 +540,9 @@ class IntegerFieldFormat(AbstractFieldFormat):
         assert value
 
         try:
+            if "_" in value:
+                # Python source code can use underscores to group digits, numbers in data can not.
+                raise ValueError("underscore in number")
             value_as_int = int(value)
         except ValueError:
             raise errors.FieldValueError("value must be an integer number: %s" % _compat.text_repr(value))
